@@ -292,8 +292,15 @@ def handle (input impl : Json) : R Reply := do
   let mode ← strF input "mode"
   let kind ← strF input "jobKind"
   let salt ← natF input "salt"
-  let quiet := mode == "none" || mode == "stop-after" || mode == "cancel-after"
-  let noStop := quiet || mode == "cancel" || mode == "cancel-before"
+  -- a DEADLINE on a caller's ctx is a cancellation the run brings about itself; a job function (or the
+  -- result callback) that calls Stop() is a Stop the run brings about itself
+  let deadlines ← listOf asNat (fieldD input "deadlineMs" .null)
+  let stopJobs ← listOf (listOf asNat) (fieldD input "stopJobs" .null)
+  let selfCancel := deadlines.any (· > 0)
+  let selfStop := stopJobs.any (!·.isEmpty)
+  let quiet := (mode == "none" || mode == "stop-after" || mode == "cancel-after") && !selfCancel && !selfStop
+  let noStop := (mode == "none" || mode == "stop-after" || mode == "cancel-after" || mode == "cancel" ||
+    mode == "cancel-before") && !selfStop
   let cs : Case := { workers := workers, quiet := quiet, noStop := noStop }
   let crashed := (← boolF impl "crashed") || (fieldD impl "panic" (.str "")) != .str ""
   let callersJ ← asList (fieldD impl "callers" .null)
@@ -340,6 +347,8 @@ def handle (input impl : Json) : R Reply := do
     (if runModel then ["model-run"] else ["model-skipped-large"]) ++
     (if deterministic then ["exact-compare"] else ["envelope-compare"]) ++
     (if stuck then ["stuck"] else []) ++
+    (if selfCancel then ["ctx-deadline"] else []) ++
+    (if selfStop then ["stop-from-inside"] else []) ++
     (match fieldD input "via" (.str "") with
      | .str "" => []
      | .str v => [s!"via:{v}"] ++ (if decide (got.maxConc = workers) then ["runner-workers-saturated"] else [])
